@@ -104,6 +104,9 @@ def run_one(rng, counters):
             rl = os.path.join(tmp, "reads.tsv")
             ro["read_list_filename"] = rl
         out = os.path.join(tmp, "out.vcf")
+        if rng.random() < 0.2:
+            ro["via_cli"] = opts["via_cli"] = True  # through whatshap's argument parser, validate() and main()
+            counters["runs_via_command_line"] = counters.get("runs_via_command_line", 0) + 1
         status, trace, msg = pipeline.run_phase(sim, out, **ro)
         desc = {"params": p, "options": opts, "n_reads": len(sim.reads)}
         if status == "cle" and "No reads could be retrieved" in msg:
